@@ -1,5 +1,5 @@
 /-
-`messages`, `partA`, `partB`, `findSysline` over a well-formed line list.
+`messages`, `slPartA`, `slPartB`, `findSysline` over a well-formed line list.
 
 Main results: `decomp` (a well-formed list is a head-less prefix followed by
 blocks "timestamped line + head-less lines", and `messages` lists the blocks),
@@ -174,7 +174,7 @@ theorem Blocks.mem_bounds {s : Nat} {S : List LineInfo} {Ms : List Sysl} (h : Bl
     · have := ih hm
       omega
 
-/-! ### `partA` -/
+/-! ### `slPartA` -/
 
 theorem wf_adjacent {X Y : List LineInfo} {a b : LineInfo} (h : WFLines (X ++ a :: b :: Y)) :
     b.beg = a.fin + 1 ∧ a.beg ≤ a.fin ∧ b.beg ≤ b.fin ∧ a.beg = endOf 0 X := by
@@ -189,7 +189,7 @@ theorem wf_mid {X Y : List LineInfo} {a : LineInfo} (h : WFLines (X ++ a :: Y)) 
 /-- forward phase of part A (after offset 0 has been tried) -/
 theorem partA_fwd {ls : List LineInfo} (hwf : WFLines ls) :
     ∀ (Q P : List LineInfo) (fuel : Nat), ls = P ++ Q → Q.length + 1 ≤ fuel →
-      partA ls fuel (endOf 0 P) true (endOf 0 P) = Q.find? (fun l => l.dt.isSome) := by
+      slPartA ls fuel (endOf 0 P) true (endOf 0 P) = Q.find? (fun l => l.dt.isSome) := by
   intro Q
   induction Q with
   | nil =>
@@ -198,14 +198,14 @@ theorem partA_fwd {ls : List LineInfo} (hwf : WFLines ls) :
     have : lineAt ls (endOf 0 P) = none := by
       apply lineAt_none hwf
       rw [fileSz_eq_endOf, hls]; simp
-    simp [partA, this]
+    simp [slPartA, this]
   | cons q Q ih =>
     intro P fuel hls hf
     obtain ⟨f, rfl⟩ : ∃ f, fuel = f + 1 := ⟨fuel - 1, by simp at hf; omega⟩
     subst hls
     obtain ⟨hb, hbf⟩ := wf_mid hwf
     have hl : lineAt (P ++ q :: Q) (endOf 0 P) = some q := lineAt_mid hwf (by omega) (by omega)
-    simp only [partA, hl]
+    simp only [slPartA, hl]
     cases hdt : q.dt with
     | some t => simp [hdt]
     | none =>
@@ -219,7 +219,7 @@ theorem partA_fwd {ls : List LineInfo} (hwf : WFLines ls) :
 theorem partA_zero_true {ls : List LineInfo} (hwf : WFLines ls) (P Q : List LineInfo)
     (hls : ls = P ++ Q) (hP : Headless P) (hne : P ≠ []) (fuel : Nat)
     (hf : Q.length + 2 ≤ fuel) :
-    partA ls fuel 0 true (endOf 0 P) = Q.find? (fun l => l.dt.isSome) := by
+    slPartA ls fuel 0 true (endOf 0 P) = Q.find? (fun l => l.dt.isSome) := by
   obtain ⟨f, rfl⟩ : ∃ f, fuel = f + 1 := ⟨fuel - 1, by omega⟩
   cases P with
   | nil => exact absurd rfl hne
@@ -238,15 +238,15 @@ theorem partA_zero_true {ls : List LineInfo} (hwf : WFLines ls) (P Q : List Line
       have := le_endOf h1.2.2
       simpa using this
     have hmax : max (endOf 0 (p :: P')) (p.fin + 1) = endOf 0 (p :: P') := by omega
-    simp only [partA, hl, hdt, if_true, hmax]
+    simp only [slPartA, hl, hdt, if_true, hmax]
     exact partA_fwd hwf Q (p :: P') f rfl (by omega)
 
 /-- `fo` inside a timestamped line -/
 theorem partA_head {ls : List LineInfo} (hwf : WFLines ls) {h : LineInfo} {t : Int}
     (hm : h ∈ ls) (ht : h.dt = some t) {fo : Nat} (h1 : h.beg ≤ fo) (h2 : fo ≤ h.fin)
-    (fuel : Nat) (z : Bool) (M : Nat) : partA ls (fuel + 1) fo z M = some h := by
+    (fuel : Nat) (z : Bool) (M : Nat) : slPartA ls (fuel + 1) fo z M = some h := by
   have hl : lineAt ls fo = some h := (lineAt_some_iff hwf fo h).2 ⟨hm, h1, h2⟩
-  simp [partA, hl, ht]
+  simp [slPartA, hl, ht]
 
 /-- backward walk from a head-less line of a block to the block's head -/
 theorem partA_back_found {ls : List LineInfo} (hwf : WFLines ls) {h : LineInfo} {t : Int}
@@ -254,7 +254,7 @@ theorem partA_back_found {ls : List LineInfo} (hwf : WFLines ls) {h : LineInfo} 
     ∀ (c1r : List LineInfo) (l : LineInfo) (c2 X Y : List LineInfo) (fuel fo M : Nat),
       ls = X ++ h :: (c1r.reverse ++ l :: c2) ++ Y → Headless (l :: c1r) →
       l.beg ≤ fo → fo ≤ l.fin → c1r.length + 2 ≤ fuel →
-      partA ls fuel fo false M = some h := by
+      slPartA ls fuel fo false M = some h := by
   intro c1r
   induction c1r with
   | nil =>
@@ -268,7 +268,7 @@ theorem partA_back_found {ls : List LineInfo} (hwf : WFLines ls) {h : LineInfo} 
       have : WFLines (X ++ h :: l :: (c2 ++ Y)) := by rw [hls] at hwf; simpa using hwf
       have := wf_adjacent this
       omega
-    rw [partA]
+    rw [slPartA]
     simp only [hl, hdt]
     by_cases hb : l.beg > 1
     · simp only [Bool.false_eq_true, if_false, hb, if_true]
@@ -290,7 +290,7 @@ theorem partA_back_found {ls : List LineInfo} (hwf : WFLines ls) {h : LineInfo} 
       have hX : WFFrom 0 (X ++ h :: r.reverse) := ((WFFrom_append 0 _ _).1 hw).1
       have := lt_endOf_of_ne_nil hX (by simp)
       omega
-    rw [partA]
+    rw [slPartA]
     simp only [hl, hdt]
     have hb : l.beg > 1 := by omega
     simp only [Bool.false_eq_true, if_false, hb, if_true]
@@ -308,7 +308,7 @@ theorem partA_back_none {ls : List LineInfo} (hwf : WFLines ls) :
       l.beg ≤ fo → fo ≤ l.fin →
       max M (l.fin + 1) = endOf 0 (P1r.reverse ++ l :: P2) →
       P1r.length + Q.length + 3 ≤ fuel →
-      partA ls fuel fo false M = Q.find? (fun l => l.dt.isSome) := by
+      slPartA ls fuel fo false M = Q.find? (fun l => l.dt.isSome) := by
   intro P1r
   induction P1r with
   | nil =>
@@ -321,7 +321,7 @@ theorem partA_back_none {ls : List LineInfo} (hwf : WFLines ls) :
       have : WFLines ([] ++ l :: (P2 ++ Q)) := by rw [hls] at hwf; simpa using hwf
       have := wf_mid this
       simpa using this.1
-    rw [partA]
+    rw [slPartA]
     simp only [hl, hdt, hM]
     have hb : ¬ l.beg > 1 := by omega
     simp only [Bool.false_eq_true, if_false, hb]
@@ -338,7 +338,7 @@ theorem partA_back_none {ls : List LineInfo} (hwf : WFLines ls) :
       have hw := hwf; rw [e] at hw
       have h3 := wf_adjacent hw
       omega
-    rw [partA]
+    rw [slPartA]
     simp only [hl, hdt, hM]
     by_cases hb : l.beg > 1
     · simp only [Bool.false_eq_true, if_false, hb, if_true]
@@ -350,12 +350,12 @@ theorem partA_back_none {ls : List LineInfo} (hwf : WFLines ls) :
     · simp only [Bool.false_eq_true, if_false, hb]
       exact partA_zero_true hwf _ Q hls hH (by simp) f (by simp at hf; omega)
 
-/-! ### `partB` -/
+/-! ### `slPartB` -/
 
 theorem partB_run {ls : List LineInfo} (hwf : WFLines ls) :
     ∀ (c X R : List LineInfo) (fuel fin : Nat), ls = X ++ c ++ R → Headless c → HeadFirst R →
       endOf 0 X = fin + 1 → c.length + 1 ≤ fuel →
-      partB ls fuel (fin + 1) fin = endOf (fin + 1) c - 1 := by
+      slPartB ls fuel (fin + 1) fin = endOf (fin + 1) c - 1 := by
   intro c
   induction c with
   | nil =>
@@ -366,7 +366,7 @@ theorem partB_run {ls : List LineInfo} (hwf : WFLines ls) :
       have : lineAt ls (fin + 1) = none := by
         apply lineAt_none hwf
         rw [fileSz_eq_endOf, hls]; simp [hX]
-      simp [partB, this]
+      simp [slPartB, this]
     | cons r R' =>
       obtain ⟨t, ht⟩ := hR
       have hw : WFLines (X ++ r :: R') := by rw [hls] at hwf; simpa using hwf
@@ -374,7 +374,7 @@ theorem partB_run {ls : List LineInfo} (hwf : WFLines ls) :
       have hl : lineAt ls (fin + 1) = some r := by
         rw [hls]; simp only [List.append_nil]
         exact lineAt_mid hw (by omega) (by omega)
-      simp [partB, hl, ht]
+      simp [slPartB, hl, ht]
   | cons x c ih =>
     intro X R fuel fin hls hc hR hX hf
     obtain ⟨f, rfl⟩ : ∃ f, fuel = f + 1 := ⟨fuel - 1, by omega⟩
@@ -385,7 +385,7 @@ theorem partB_run {ls : List LineInfo} (hwf : WFLines ls) :
       rw [hls]
       have := lineAt_mid hw (fo := fin + 1) (by omega) (by omega)
       simpa using this
-    simp only [partB, hl, hx, endOf_cons]
+    simp only [slPartB, hl, hx, endOf_cons]
     apply ih (X ++ [x]) R f x.fin (by rw [hls]; simp) hc' hR
     · rw [endOf_append]; simp
     · simp at hf; omega
@@ -432,7 +432,7 @@ theorem findSysline_block {ls : List LineInfo} (hwf : WFLines ls) {X c R : List 
   have hlen := length_le_of_append3 X h c R
   rw [← hls] at hlen
   -- part A
-  have hA : partA ls (2 * ls.length + 2) fo false 0 = some h := by
+  have hA : slPartA ls (2 * ls.length + 2) fo false 0 = some h := by
     obtain ⟨l, hl, hb1, hb2⟩ := exists_line hwhc h1 h2
     rcases List.mem_cons.1 hl with rfl | hl
     · exact partA_head hwf hmemh ht hb1 hb2 _ false 0
@@ -447,7 +447,7 @@ theorem findSysline_block {ls : List LineInfo} (hwf : WFLines ls) {X c R : List 
       · exact hb2
       · simp at hlen ⊢; omega
   -- part B
-  have hB : partB ls (ls.length + 1) (h.fin + 1) h.fin = endOf (h.fin + 1) c - 1 := by
+  have hB : slPartB ls (ls.length + 1) (h.fin + 1) h.fin = endOf (h.fin + 1) c - 1 := by
     apply partB_run hwf c (X ++ [h]) R _ h.fin (by rw [hls]; simp) hc hR
     · rw [endOf_append]; simp
     · omega
@@ -466,7 +466,7 @@ theorem findSysline_pre {ls : List LineInfo} (hwf : WFLines ls) {A S : List Line
   have hwA : WFFrom 0 A := ((WFFrom_append 0 A S).1 hw).1
   obtain ⟨l, hl, hb1, hb2⟩ := exists_line hwA (Nat.zero_le fo) hfo
   obtain ⟨P1, P2, rfl⟩ := List.mem_iff_append.1 hl
-  have hPA : partA ls (2 * ls.length + 2) fo false 0 = S.find? (fun l => l.dt.isSome) := by
+  have hPA : slPartA ls (2 * ls.length + 2) fo false 0 = S.find? (fun l => l.dt.isSome) := by
     have := partA_back_none hwf P1.reverse l [] (P2 ++ S) (2 * ls.length + 2) fo 0
       (by rw [hls]; simp)
       (by
@@ -489,7 +489,7 @@ theorem findSysline_pre {ls : List LineInfo} (hwf : WFLines ls) {A S : List Line
       rw [hS]; simp [ht]
     have hlen : ls.length = (P1 ++ l :: P2).length + 1 + c.length + R.length := by
       rw [hls, hS]; simp; omega
-    have hB : partB ls (ls.length + 1) (h.fin + 1) h.fin = endOf (h.fin + 1) c - 1 := by
+    have hB : slPartB ls (ls.length + 1) (h.fin + 1) h.fin = endOf (h.fin + 1) c - 1 := by
       apply partB_run hwf c ((P1 ++ l :: P2) ++ [h]) R _ h.fin (by rw [hls, hS]; simp) hc hR
       · rw [endOf_append]; simp
       · omega
@@ -500,8 +500,8 @@ theorem findSysline_beyond {ls : List LineInfo} (hwf : WFLines ls) {fo : Nat}
     (h : fileSz ls ≤ fo) : findSysline ls fo = .done := by
   have : lineAt ls fo = none := lineAt_none hwf h
   have e : 2 * ls.length + 2 = (2 * ls.length + 1) + 1 := by omega
-  have hp : partA ls (2 * ls.length + 2) fo false 0 = none := by
-    rw [e]; simp [partA, this]
+  have hp : slPartA ls (2 * ls.length + 2) fo false 0 = none := by
+    rw [e]; simp [slPartA, this]
   simp [findSysline, hp]
 
 theorem findSysline_blocks {s : Nat} {S : List LineInfo} {Ms : List Sysl} (hB : Blocks s S Ms) :
